@@ -1,7 +1,7 @@
 SPECIFICATION JSpec
 CONSTANTS
     Inputs <- MCInputsOn2
-    Configs <- MCConfigsOn
+    Configs <- MCConfigsOnQ
 INVARIANTS
     JoinPairing
     Confluence
